@@ -35,7 +35,7 @@ def children(node):
     if "args" in node:
         return list(node["args"])
     if "arg" in node:
-        return [node["arg"]]
+        return [node["arg"]] + list(node.get("head", [])) + list(node.get("tail", []))
     return []
 
 
@@ -62,7 +62,14 @@ def dense(node):
         X = r.M.T if "T" in f else r.M.conj().T
         M = X @ r.M if f in ("TA", "HA") else r.M @ X
         Bd = r.B.T @ r.B if f in ("TA", "HA") else r.B @ r.B.T
-        return Ref(M, Bd, r.dtype, r.eps)
+        dt, eps = r.dtype, r.eps
+        for c in reversed(node.get("head", [])):
+            h = dense(c)
+            M, Bd, dt, eps = h.M @ M, h.B @ Bd, np.result_type(dt, h.dtype), max(eps, h.eps)
+        for c in node.get("tail", []):
+            t = dense(c)
+            M, Bd, dt, eps = M @ t.M, Bd @ t.B, np.result_type(dt, t.dtype), max(eps, t.eps)
+        return Ref(M, Bd, dt, eps)
     if k == "Sliced":
         r = dense(node["arg"])
         i0 = to_index(node["slices"][0], r.M.shape[0])
@@ -269,7 +276,12 @@ def shape_of(node):
         return shape_of(node["arg"])
     if k == "Gram":
         s = shape_of(node["arg"])
-        return (s[1], s[1]) if node["form"] in ("TA", "HA") else (s[0], s[0])
+        s = (s[1], s[1]) if node["form"] in ("TA", "HA") else (s[0], s[0])
+        if node.get("head"):
+            s = (shape_of(node["head"][0])[0], s[1])
+        if node.get("tail"):
+            s = (s[0], shape_of(node["tail"][-1])[1])
+        return s
     if k == "Sliced":
         s = shape_of(node["arg"])
         r = np.arange(s[0])[to_index(node["slices"][0], s[0])]
